@@ -340,8 +340,10 @@ def expected_gff3_relations(features):
 
 
 def unit_gff_step(U):
-    """loop body of _GFFDBCreator._populate_from_lines for an arbitrary feature: relation part"""
-    for shape in ("parents:any", "parents:absent"):
+    """loop body of _GFFDBCreator._populate_from_lines for an arbitrary feature: relation part.
+    Run once as the only line and once AFTER another arbitrary line (its own id and Parent list, possibly
+    sharing values): state carried from one iteration to the next would show on the second."""
+    for shape, after in (("parents:any", False), ("parents:absent", False), ("parents:any", True)):
         it, fs = _gff_interp()
         fid, fidv = sval("f.ID")
         parents, plen, pat = sym_seq_of_strings("f.Parent")
@@ -350,14 +352,27 @@ def unit_gff_step(U):
             attrs["Parent"] = parents
         vars_ = {"f.ID": fidv, "f.Parent.len": plen}
 
-        def run(ctx, attrs=attrs):
+        def run(ctx, attrs=attrs, after=after):
             ctx.assume(plen >= 0)
             f, fv = sym_feature("f", attrs)
             conn = ghostdb.GhostConn()
             cr = blank_creator(C._GFFDBCreator, conn, id_spec="ID", merge_strategy="error")
-            it.call(C._GFFDBCreator._populate_from_lines, [cr, [f]], {})
+            feats = [f]
+            if after:
+                gid, _ = sval("g.ID")
+                gpar, glen, _ = sym_seq_of_strings("g.Parent")
+                ctx.assume(glen >= 0)
+                g, _ = sym_feature("g", {"ID": [gid], "Parent": gpar})
+                feats = [g, f]
+                ctx.assumed_models.add("generic-step(after one arbitrary earlier line; independence of earlier history beyond that)")
+
+            def lines():
+                for k, x in enumerate(feats):
+                    Ctx.current.effect("mark", k)
+                    yield x
+            it.call(C._GFFDBCreator._populate_from_lines, [cr, lines()], {})
             return f
-        base = "C02.gff.step[%s]" % shape
+        base = "C02.gff.step[%s%s]" % (shape, ",after-other-line" if after else "")
 
         def replay(m, shape=shape):
             n = min(max(int(m.get("f.Parent.len", 0)), 0), 3) if shape == "parents:any" else 0
@@ -378,7 +393,9 @@ def unit_gff_step(U):
                 U.prove(base + ".noraise#p%d" % p.index, "the step raises nothing for unique ids, dangling parents included (got %r)" % (p.value,), p.pc, z3.BoolVal(False), vars_, replay=replay)
                 continue
             f = p.value
-            effs = classify(p.ctx.effects)
+            raw = list(p.ctx.effects)
+            marks = [i for i, e in enumerate(raw) if e[0] == "mark"]
+            effs = classify(raw[marks[-1]:] if marks else raw)        # the statements issued for f (the last line)
             rel = [e for e in effs if e.table == "relations" and e.kind in ("insert", "delete", "update")]
             has_par = shape == "parents:any"
             # on the path where the Parent list is non-empty there is exactly one forall block
